@@ -330,7 +330,17 @@ func queriesOf(rng *hx.Rng, r *tbl.Raw, x *tbl.Ref, o qopt) []string {
 // (a garbage FirstSampleNr cache can make GetContainingChunks loop over ~2^32 chunks).
 func mutate(rng *hx.Rng, r *tbl.Raw) (string, bool) {
 	safe := true
-	switch rng.Intn(12) {
+	switch rng.Intn(14) {
+	case 12:
+		// uint32 wrap-around of the EndSampleNr cache (the builder / decoder equalities hold with wrap-around)
+		r.HasCtts = true
+		r.CttsC = []uint32{0xfffffff0, uint32(rng.Range(0x10, 0x30)), 3}
+		r.CttsO = []int32{1, 2, 3}
+		return "ctts-wrap", safe
+	case 13:
+		// uint32 wrap-around of the FirstSampleNr cache
+		r.Stsc = [][3]uint32{{1, 3, 1}, {0x80000000, 0x10, r.Stsc[0][2]}, {0x80000010, uint32(rng.Range(1, 3)), 1}}
+		return "stsc-wrap", false
 	case 0:
 		r.SttsC = r.SttsC[:len(r.SttsC)-1]
 		r.SttsD = r.SttsD[:len(r.SttsD)-1]
